@@ -49,8 +49,9 @@ CONSTANTS RollQ, HeadQ,
 
 VARIABLES alt, rq, hq, vel, f, w,      \* the configuration
           pc,                          \* "vel" -> "mid" -> "pos" -> "att" -> "done"
-          vnew, vmid, pnew, cnew       \* duals computed so far (<<>> before)
-vars == <<alt, rq, hq, vel, f, w, pc, vnew, vmid, pnew, cnew>>
+          vnew, vmid, pnew, cnew,      \* duals computed so far (<<>> before)
+          der                          \* the derived right-hand side of the configuration (computed once, in Init)
+vars == <<alt, rq, hq, vel, f, w, pc, vnew, vmid, pnew, cnew, der>>
 
 NB == 9
 FZ == [i \in 1..NB |-> 0]
@@ -131,18 +132,18 @@ VelocityUpdate ==
                                    GravityAt(DSub(DI(0), DMul(V(3), HalfDT)))), DT))
                ELSE DI(0)
      IN vnew' = <<n1, n2, n3>>
-  /\ pc' = "mid" /\ UNCHANGED <<alt, rq, hq, vel, f, w, vmid, pnew, cnew>>
+  /\ pc' = "mid" /\ UNCHANGED <<alt, rq, hq, vel, f, w, der, vmid, pnew, cnew>>
 
 Midpoint ==                                                      \* V = 0.5 * (V + velocity_n[j + 1])
   /\ pc = "mid"
   /\ vmid' = [k \in 1..3 |-> DHalf(DAdd(V(k), vnew[k]))]
-  /\ pc' = "pos" /\ UNCHANGED <<alt, rq, hq, vel, f, w, vnew, pnew, cnew>>
+  /\ pc' = "pos" /\ UNCHANGED <<alt, rq, hq, vel, f, w, der, vnew, pnew, cnew>>
 
 PositionUpdate ==                                                \* offsets from the old position; latitude and longitude in radians
   /\ pc = "pos"
   /\ LET rho == RhoOf(vmid[1], vmid[2])
      IN pnew' = <<DNeg(DMul(rho[2], DT)), DMul(DOverCos(rho[1]), DT), DNeg(DMul(vmid[3], DT))>>
-  /\ pc' = "att" /\ UNCHANGED <<alt, rq, hq, vel, f, w, vnew, vmid, cnew>>
+  /\ pc' = "att" /\ UNCHANGED <<alt, rq, hq, vel, f, w, der, vnew, vmid, cnew>>
 
 \* mat_from_rotvec (series branch: the squared norm of a first-order vector is below any threshold)
 RotVec(rv) ==
@@ -162,7 +163,7 @@ AttitudeUpdate ==
          dBn == RotVec(xi)
          dBb == RotVec(Theta)
      IN cnew' = DMatMul(dBn, DMatMul(C0D, dBb))                  \* np.dot(mat_nb[j], dBb, C); np.dot(dBn, C, mat_nb[j + 1])
-  /\ pc' = "done" /\ UNCHANGED <<alt, rq, hq, vel, f, w, vnew, vmid, pnew>>
+  /\ pc' = "done" /\ UNCHANGED <<alt, rq, hq, vel, f, w, der, vnew, vmid, pnew>>
 
 (***************************************************************************)
 (* (b) derived: the navigation equations, as forms                         *)
@@ -186,30 +187,31 @@ Derived == PDot \o VDot \o CDot[1] \o CDot[2] \o CDot[3]          \* 15 forms: l
 
 Init == /\ alt \in BOOLEAN /\ rq \in RollQ /\ hq \in HeadQ /\ vel \in Vels /\ f \in Forces /\ w \in BodyRates
         /\ pc = "vel" /\ vnew = <<>> /\ vmid = <<>> /\ pnew = <<>> /\ cnew = <<>>
+        /\ der = Derived
 Emit == /\ pc = "done" /\ pc' = "emitted"
-        /\ PrintT(<<"STEP", alt, rq, hq, vel, f, w, Derived>>)
-        /\ UNCHANGED <<alt, rq, hq, vel, f, w, vnew, vmid, pnew, cnew>>
+        /\ PrintT(<<"STEP", alt, rq, hq, vel, f, w, der>>)
+        /\ UNCHANGED <<alt, rq, hq, vel, f, w, der, vnew, vmid, pnew, cnew>>
 Next == VelocityUpdate \/ Midpoint \/ PositionUpdate \/ AttitudeUpdate \/ Emit
 Spec == Init /\ [][Next]_vars
 
 (***************************************************************************)
 (* invariants (C01, consistency)                                           *)
 (***************************************************************************)
-Finished == pc \in {"done", "emitted"}
+Finished == pc = "done"          \* (one state per configuration: the invariants are evaluated once)
 CodeDuals == pnew \o vnew \o cnew[1] \o cnew[2] \o cnew[3]
 Start == <<0, 0, 0>> \o VE0 \o C0[1] \o C0[2] \o C0[3]
 \* the first-order coefficient of the one-step map (in h = dt / 2, hence the factor 2) is the right-hand side of the navigation equations
-Consistent == Finished => \A k \in 1..15 : CodeDuals[k][2] = FScale(2, Derived[k])
+Consistent == Finished => \A k \in 1..15 : CodeDuals[k][2] = FScale(2, der[k])
 \* a step of length zero returns the state it started from
 ZeroStep == Finished => \A k \in 1..15 : CodeDuals[k][1] = FI(Start[k])
 \* nothing of second order in the Earth quantities, no odd half, no gravity gradient in the result
-NoTaint == Finished => \A k \in 1..15 : CodeDuals[k][1][9] = 0 /\ CodeDuals[k][2][9] = 0 /\ Derived[k][9] = 0
+NoTaint == Finished => \A k \in 1..15 : CodeDuals[k][1][9] = 0 /\ CodeDuals[k][2][9] = 0 /\ der[k][9] = 0
 \* without altitude the vertical channel is frozen (C13's clause, on the model)
 Frozen2D == (Finished /\ ~alt) => vnew[3] = DI(0) /\ pnew[3] = DI(0)
 \* the attitude stays a rotation to first order: C'C^T + C C'^T = 0 for the derived rate
-SkewRate == \A i \in 1..3 : \A j \in 1..3 :
+SkewRate == Finished => \A i \in 1..3 : \A j \in 1..3 :
               FAdd(FAdd(FAdd(FScale(C0[j][1], CDot[i][1]), FScale(C0[j][2], CDot[i][2])), FScale(C0[j][3], CDot[i][3])),
                    FAdd(FAdd(FScale(C0[i][1], CDot[j][1]), FScale(C0[i][2], CDot[j][2])), FScale(C0[i][3], CDot[j][3]))) = FZ
 \* gravity acts on the vertical channel only and the specific force enters through the attitude matrix only
-GravityDown == VDot[1][2] = 0 /\ VDot[2][2] = 0 /\ VDot[3][2] = (IF alt THEN 1 ELSE 0) /\ \A k \in 1..3 : PDot[k][2] = 0
+GravityDown == Finished => VDot[1][2] = 0 /\ VDot[2][2] = 0 /\ VDot[3][2] = (IF alt THEN 1 ELSE 0) /\ \A k \in 1..3 : PDot[k][2] = 0
 =============================================================================
